@@ -5,7 +5,6 @@ and/or elements. A Dataset is basically a list of rankings.
 
 from typing import List, Dict, Set, Tuple, Union, Iterator
 from collections import Counter
-import copy
 import numpy as np
 from corankco.utils import get_rankings_from_file, get_rankings_from_folder, write_rankings, name_file
 from corankco.ranking import Ranking
@@ -417,15 +416,18 @@ class Dataset:
         :return: the unified rankings of the Dataset within a new Ranking List
 
         """
-        copy_rankings: List[Ranking] = copy.deepcopy(self.rankings)
+        unified_rankings: List[Ranking] = []
         all_elements: Set[Element] = set(self._mapping_element_id.keys())
 
-        for ranking in copy_rankings:
+        for ranking in self.rankings:
+            # new Ranking objects are built, so that their positions and domain are consistent with their buckets
+            buckets: List[Set[Element]] = [set(bucket) for bucket in ranking]
             missing_elements: Set[Element] = all_elements - ranking.domain
             if missing_elements:
-                ranking.buckets.append(missing_elements)
+                buckets.append(missing_elements)
+            unified_rankings.append(Ranking(buckets))
 
-        return copy_rankings
+        return unified_rankings
 
     def unified_dataset(self):
         """
